@@ -148,7 +148,9 @@ def alphabet_for(scope):
     def alpha(prefix, ref):
         snap = ref.snapshot
         if snap is None:
-            return ()
+            # the reference is done with this prefix (error or complete value) but the implementation still asks for
+            # input - already a disagreement; follow it with one filler byte so that what it leads to is seen as well
+            return (0,)
         what, partial = snap[2], snap[3]
         if what is None:
             return (0,)
